@@ -25,12 +25,14 @@ Drop(ss, k) ==
   ELSE LET h == Head(ss)  n == SegLen(h) IN
        IF k >= n THEN Drop(Tail(ss), k - n)
        ELSE IF IsRun(h) THEN <<[r |-> <<h.r[1], h.r[2] + k, n - k>>]>> \o Tail(ss)
+       ELSE IF IsZeros(h) THEN <<[z |-> n - k]>> \o Tail(ss)
        ELSE <<[l |-> SubSeq(h.l, k + 1, n)]>> \o Tail(ss)
 Take(ss, k) ==
   IF k = 0 \/ ss = <<>> THEN <<>>
   ELSE LET h == Head(ss)  n == SegLen(h) IN
        IF k >= n THEN <<h>> \o Take(Tail(ss), k - n)
        ELSE IF IsRun(h) THEN <<[r |-> <<h.r[1], h.r[2], k>>]>>
+       ELSE IF IsZeros(h) THEN <<[z |-> k]>>
        ELSE <<[l |-> SubSeq(h.l, 1, k)]>>
 Slice(in, at, n) == Take(Drop(in.segs, at), n)
 
@@ -38,7 +40,8 @@ Slice(in, at, n) == Take(Drop(in.segs, at), n)
 \* as literals, adjacent literals are merged, empty segments dropped.  Two segment lists produced under the
 \* harness's conventions denote the same bytes iff their normal forms are equal.
 NormLimit == 64
-RunToLit(s) == IF IsRun(s) /\ s.r[3] <= NormLimit THEN [l |-> [i \in 1 .. s.r[3] |-> PatByte(s.r[1], s.r[2] + i - 1)]] ELSE s
+RunToLit(s) == IF IsRun(s) /\ s.r[3] <= NormLimit THEN [l |-> [i \in 1 .. s.r[3] |-> PatByte(s.r[1], s.r[2] + i - 1)]]
+               ELSE IF IsZeros(s) /\ s.z <= NormLimit THEN [l |-> [i \in 1 .. s.z |-> 0]] ELSE s
 Norm(ss) == Canon([k \in 1 .. Len(ss) |-> RunToLit(ss[k])])
 
 \* equality of the byte strings denoted by two segment lists: equal normal forms, or (when the recogniser
